@@ -98,7 +98,8 @@ pub fn run(tape: &[u8], cx: &Cx) -> Outcome {
     for _ in 0..k {
         match t.weighted(&[3, 2, 2]) {
             0 => lit.push(gen_scalar(&mut t)),
-            1 => lit.push_str(t.pick(&["\\u{2ffff}", "\\u{30000}", "\\u{10ffff}", "\\uFFFF", "\\u{", "\\u", "}", "\\u{d800}"])),
+            // (escapes, and runs of hex digits that read as a too-large number when glued to an escape)
+            1 => lit.push_str(t.pick(&["\\u{2ffff}", "\\u{30000}", "\\u{10ffff}", "\\uFFFF", "\\u{", "\\u", "}", "\\u{d800}", "\\u0041", "ffffff", "FFFFFFF", "ffff", "\\u{0"])),
             _ => lit.push(t.pick(&['a', '\\', 'u', '{', '}', '0'])),
         }
     }
@@ -154,6 +155,15 @@ pub fn run(tape: &[u8], cx: &Cx) -> Outcome {
     let exp: Vec<u32> = ints.iter().map(|&c| if c <= MAXC { c } else { 0xFFFD }).collect();
     let a1 = SmtString::from(&ints[..]);
     let a2 = SmtString::from(ints.clone());
+    // the same values in a vector with much spare capacity (what a caller gets from with_capacity + push,
+    // or from truncating a long vector): the result must not depend on the allocation
+    let mut roomy: Vec<u32> = Vec::with_capacity(ints.len() * 8 + 64);
+    roomy.extend_from_slice(&ints);
+    let a2r = SmtString::from(roomy);
+    let mut cut: Vec<u32> = ints.clone();
+    cut.extend(std::iter::repeat(0x61).take(ints.len() * 6 + 40));
+    cut.truncate(ints.len());
+    let a2t = SmtString::from(cut);
     let a3 = SmtString::from(x);
     let mut arr = [0u32; 3];
     for (i, slot) in arr.iter_mut().enumerate() {
@@ -173,7 +183,7 @@ pub fn run(tape: &[u8], cx: &Cx) -> Outcome {
     let (b1, b8, b33) = (arr_of::<1>(&ints, x), arr_of::<8>(&ints, x), arr_of::<33>(&ints, x));
     let (g1, g8, g33) = (SmtString::from(&b1), SmtString::from(&b8), SmtString::from(&b33));
     let (e1, e8, e33) = (fix(&b1), fix(&b8), fix(&b33));
-    for (name, got, e) in [("from(&[u32])", &a1, &exp), ("from(Vec<u32>)", &a2, &exp), ("from(&[u32;3])", &a4, &exp4), ("from(&[u32;1])", &g1, &e1), ("from(&[u32;8])", &g8, &e8), ("from(&[u32;33])", &g33, &e33)] {
+    for (name, got, e) in [("from(&[u32])", &a1, &exp), ("from(Vec<u32>)", &a2, &exp), ("from(Vec<u32> with spare capacity)", &a2r, &exp), ("from(truncated Vec<u32>)", &a2t, &exp), ("from(&[u32;3])", &a4, &exp4), ("from(&[u32;1])", &g1, &e1), ("from(&[u32;8])", &g8, &e8), ("from(&[u32;33])", &g33, &e33)] {
         o.evals += 1;
         if got.as_ref() != &e[..] {
             o.fail("C17/int-constructor", format!("SmtString::{} on {:x?} = {}, expected {}", name, ints, show_str(got.as_ref()), show_str(e)));
